@@ -105,6 +105,41 @@ CLAIMED = {
         technique="Lean 4 proof (mutual structural induction over the call tree, row-selection lemmas for "
                   "products / Khatri-Rao / stacking) + row-identity spec on real output + correspondence",
         ref="6 C06"),
+    "C08": dict(
+        text="Lean 4 theorems about the evaluation model (31): for every permutation sigma of the rows, "
+             "TRAINING on the permuted frame gives the permuted training matrix and exactly the same "
+             "remembered state - levels, contrast matrices, fitted means, labels, slices, groups - for "
+             "components, terms, group-specific terms and the stacked common / group matrices (C08_perm, "
+             "C08_perm_stacks; no fragment guard: C/T/S with levels, ordered categoricals, binary, prop, "
+             "offset, center all inside), built on C08_sortLevels_perm (level sorting is order "
+             "independent: insertion sort under a strict total order), C08_dedup_perm, C08_mean_perm, "
+             "C08_evalArg_perm; C08_unused (frames that agree on the columns the formula names give equal "
+             "designs: columns added, removed, reordered). Spec.C08 is evaluated by the driver on pairs of "
+             "real runs: 3 row permutations, non-unique string and unsorted float indexes, reversed "
+             "columns, extra / removed unused columns, missing values under relabelled indexes; fitted "
+             "transform parameters are compared too.",
+        note="Trusted: Lean kernel; the row index does not exist in the model (index relabelling is decided "
+             "by the runs only); float rounding of sums and the parameters of scale/bs/poly are compared "
+             "with tolerance 1e-9 on real runs (their exact-rational models are in C14).",
+        technique="Lean 4 proof (permutation invariance of sort/dedup/mean, mutual induction over the call "
+                  "tree, row-selection lemmas) + relational spec evaluated on pairs of real runs",
+        ref="6 C08"),
+    "C09": dict(
+        text="Lean 4 model of var_names (CallVarsExtractor over the lazy call tree) and of the NA step of "
+             "design_matrices, with theorems: the visitor finds exactly the variable leaves incl. keyword "
+             "and nested-call arguments (argVars_eq / atomVars_eq, mutual structural induction), drop = "
+             "selected columns restricted to complete rows, error <=> an incomplete selected row, pass "
+             "keeps all rows, other actions refused, unused columns ignored, row alignment of all columns; "
+             "accepted actions regenerated from matrices.py and tied by `decide`. Spec.C09 (used variables "
+             "from the AST, drop run = run on the filtered frame, error policy, pass rule against the "
+             "imputed reference) is evaluated by the driver on real runs over generated missingness "
+             "patterns in used and unused columns, under scrambled / non-unique row labels; the "
+             "whole-pipeline Lean model is compared under the drop and pass policies.",
+        note="Trusted: Lean kernel; translator; pandas isna / boolean selection as modelled; pass is "
+             "judged only for missing numeric variables in plain variables / pointwise calls (a missing "
+             "categorical value under pass raises TypeError in sorted(): outside the statement).",
+        technique="Lean 4 proof + relational spec on real runs + model correspondence of var_names / NA step",
+        ref="6 C09"),
     "C10": dict(
         text="Lean 4 theorems about the model of eval_new_data_categoric / GroupSpecificTerm.eval_new_data "
              "/ Config: error mode raises iff a value is unseen (C10_error_iff); in warning/silent mode the "
